@@ -22,7 +22,7 @@ RULE = ("(future-rewrite kind, position of the cut day relative to the rebalance
         "day / day after / between / after last, alpha kind, universe kind, sizing mode, whether an asset has no "
         "row up to the cut, how world A ended)")
 
-REWRITES = ("scale", "new_path", "constant", "nan_cells", "extra_rows", "remove_rows", "remove_file")
+REWRITES = ("scale", "new_path", "constant", "nan_cells", "extra_rows", "remove_rows", "remove_file", "zero_bars")
 
 
 def rewrite_future(rng, market, T, kind):
@@ -51,6 +51,11 @@ def rewrite_future(rng, market, T, kind):
         elif k == "constant":
             for r in fut:
                 r[1] = r[2] = r[3] = r[4] = r[5] = 7.0
+        elif k == "zero_bars":
+            # no-trade days written as bars of zeros
+            for r in fut:
+                if rng.random() < 0.4:
+                    r[1] = r[2] = r[3] = r[4] = r[5] = 0.0
         elif k == "nan_cells":
             for r in fut:
                 if rng.random() < 0.6:
